@@ -36,3 +36,22 @@ def replay(args, outdir):
     if clause is None:
         return dict(reproduced=False)
     return dict(reproduced=True, signature='%s:%s' % (lemma, clause), what='%s: %s' % (clause, desc))
+
+
+def replay_break(args, outdir):
+    import importlib
+    from replay.common import pysam_mk
+    H = importlib.import_module('harness.C08')
+    import stubs.fakeread as FR
+    a = args['cex']
+    orig = FR.FakeRead
+    FR.FakeRead = pysam_mk     # the lemma body imports FakeRead from stubs.fakeread at call time
+    try:
+        ok = H._l3_break(**a)
+    except Exception as e:
+        FR.FakeRead = orig
+        return dict(reproduced=True, signature='L3_break_criterion:raises.%s' % type(e).__name__, what='%r for %r' % (e, a))
+    FR.FakeRead = orig
+    if ok:
+        return dict(reproduced=False)
+    return dict(reproduced=True, signature='L3_break_criterion:owned_molecule_lost', what='owned molecule not written (real pysam reads) for %r' % (a,))
